@@ -103,7 +103,7 @@ func cmdStruct(args []string) {
 	b := hx.NewBatch(*work)
 	b.WriteGoMod()
 	var src strings.Builder
-	src.WriteString("package p\n\nimport \"" + b.Mod + "/q\"\n\nvar _ q.TQ\n\nfunc Fn(x int) int { return x }\n\ntype DS struct {\n\tA int\n\tB int\n}\ntype DT struct {\n\tA int\n\tB int\n}\ntype FPS struct{ V int }\ntype UN struct{ X int }\ntype UNI struct {\n\tX     int\n\tExtra interface{}\n}\ntype USI struct{ N UNI }\ntype UTI struct{ N UNI }\ntype UTags map[string]int\ntype US struct {\n\tA  int\n\tN  UN\n\tP  *int\n\tL  []int\n\tM  map[string]int\n\tNM UTags\n}\ntype UT struct {\n\tA  int\n\tN  UN\n\tP  *int\n\tL  []int\n\tLS []string\n\tM  map[string]int\n\tNM UTags\n}\n\nfunc ToS(v []int) []string {\n\tif v == nil {\n\t\treturn []string{\"nil\"}\n\t}\n\treturn []string{\"7\"}\n}\n\ntype Money struct{ V int }\ntype Price struct{ V int }\ntype Cost struct{ V int }\ntype DS2 struct {\n\tA int\n\tM Money\n\tN Money\n}\ntype DT2 struct {\n\tA int\n\tM Price\n\tN Cost\n}\n\nfunc NewT2() *DT2 { return &DT2{A: 100} }\n\nfunc NewDL() []*struct{ A int } { return nil }\n\ntype MN struct {\n\tV    int\n\tNext *MN\n}\ntype MNO struct {\n\tV     int\n\tNextV int\n\tSum   int\n\tSelf  *MN\n}\n\nfunc NextVal(n *MN) int {\n\tif n == nil {\n\t\treturn -1\n\t}\n\treturn n.V\n}\n\nfunc Summarize(n *MN) int {\n\tif n == nil || n.Next == nil {\n\t\treturn -1\n\t}\n\treturn n.V + n.Next.V\n}\n\ntype UNT struct {\n\tX       int\n\tHistory []int\n}\ntype UCS struct{ N UN }\ntype UCT struct{ N UNT }\ntype UNS struct{ L []int }\ntype UOS struct {\n\tA int\n\tN UNS\n}\ntype UOT struct {\n\tA int\n\tN UNS\n}\ntype UDS struct{ A int }\ntype UDT struct {\n\tA   int\n\tAll UDS\n}\ntype UWS struct{ V string }\ntype UWT struct{ V int }\n\nfunc AtoiU(s string) (int, error) { return 0, errBoom{} }\n\ntype errBoom struct{}\n\nfunc (errBoom) Error() string { return \"boom\" }\n\nfunc Twice(v int) int { return 2 * v }\n\nfunc NewUWT() UWT { return UWT{V: 100} }\n\nfunc NewDM() map[string]int { return map[string]int{\"origin\": 1} }\n\ntype DR struct {\n\tV    int\n\tKids []DR\n}\ntype DRO struct {\n\tV    int\n\tKeep int\n\tKids []DRO\n}\n\nfunc NewDRO() *DRO { return &DRO{Keep: 100} }\n\ntype DV struct{ V int }\ntype DVO struct {\n\tV    int\n\tKeep int\n}\n\nfunc NewDVO() *DVO { return &DVO{Keep: 100} }\n")
+	src.WriteString("package p\n\nimport \"" + b.Mod + "/q\"\n\nvar _ q.TQ\n\nfunc Fn(x int) int { return x }\n\ntype DS struct {\n\tA int\n\tB int\n}\ntype DT struct {\n\tA int\n\tB int\n}\ntype FPS struct{ V int }\ntype UN struct{ X int }\ntype UNI struct {\n\tX     int\n\tExtra interface{}\n}\ntype USI struct{ N UNI }\ntype UTI struct{ N UNI }\ntype UTags map[string]int\ntype UH struct{ X int }\ntype UHO struct{ X int }\ntype US struct {\n\tA  int\n\tN  UN\n\tP  *int\n\tL  []int\n\tM  map[string]int\n\tNM UTags\n\tPH *UH\n}\ntype UT struct {\n\tA  int\n\tN  UN\n\tP  *int\n\tL  []int\n\tLS []string\n\tM  map[string]int\n\tNM UTags\n\tPH *UHO\n}\n\nfunc ToS(v []int) []string {\n\tif v == nil {\n\t\treturn []string{\"nil\"}\n\t}\n\treturn []string{\"7\"}\n}\n\ntype Money struct{ V int }\ntype Price struct{ V int }\ntype Cost struct{ V int }\ntype DS2 struct {\n\tA int\n\tM Money\n\tN Money\n}\ntype DT2 struct {\n\tA int\n\tM Price\n\tN Cost\n}\n\nfunc NewT2() *DT2 { return &DT2{A: 100} }\n\nfunc NewDL() []*struct{ A int } { return nil }\n\ntype MN struct {\n\tV    int\n\tNext *MN\n}\ntype MNO struct {\n\tV     int\n\tNextV int\n\tSum   int\n\tSelf  *MN\n}\n\nfunc NextVal(n *MN) int {\n\tif n == nil {\n\t\treturn -1\n\t}\n\treturn n.V\n}\n\nfunc Summarize(n *MN) int {\n\tif n == nil || n.Next == nil {\n\t\treturn -1\n\t}\n\treturn n.V + n.Next.V\n}\n\ntype UNT struct {\n\tX       int\n\tHistory []int\n}\ntype UCS struct{ N UN }\ntype UCT struct{ N UNT }\ntype UNS struct{ L []int }\ntype UOS struct {\n\tA int\n\tN UNS\n}\ntype UOT struct {\n\tA int\n\tN UNS\n}\ntype UDS struct{ A int }\ntype UDT struct {\n\tA   int\n\tAll UDS\n}\ntype UWS struct{ V string }\ntype UWT struct{ V int }\n\nfunc AtoiU(s string) (int, error) { return 0, errBoom{} }\n\ntype errBoom struct{}\n\nfunc (errBoom) Error() string { return \"boom\" }\n\nfunc Twice(v int) int { return 2 * v }\n\nfunc NewUWT() UWT { return UWT{V: 100} }\n\nfunc NewDM() map[string]int { return map[string]int{\"origin\": 1} }\n\ntype DR struct {\n\tV    int\n\tKids []DR\n}\ntype DRO struct {\n\tV    int\n\tKeep int\n\tKids []DRO\n}\n\nfunc NewDRO() *DRO { return &DRO{Keep: 100} }\n\ntype DV struct{ V int }\ntype DVO struct {\n\tV    int\n\tKeep int\n}\n\nfunc NewDVO() *DVO { return &DVO{Keep: 100} }\n")
 	type drvCall struct {
 		Args []any `json:"args"`
 		Dump []int `json:"dump"`
@@ -466,7 +466,7 @@ func cmdStruct(args []string) {
 				return map[string]any{"k": "m", "a": "i", "kv": []any{[]any{map[string]any{"k": "b", "tok": "#k"}, lit(n)}}}
 			}
 			pre := func() any {
-				return ptrv(stv(lit(9), stv(lit(9)), ptrv(lit(9)), map[string]any{"k": "s", "a": "i", "es": []any{lit(9)}}, map[string]any{"k": "s", "a": "i", "es": []any{map[string]any{"k": "b", "tok": "#9"}}}, mapv(9), mapv(9)))
+				return ptrv(stv(lit(9), stv(lit(9)), ptrv(lit(9)), map[string]any{"k": "s", "a": "i", "es": []any{lit(9)}}, map[string]any{"k": "s", "a": "i", "es": []any{map[string]any{"k": "b", "tok": "#9"}}}, mapv(9), mapv(9), ptrv(stv(lit(9)))))
 			}
 			calls := []drvCall{}
 			for _, nz := range s.Vals {
@@ -490,7 +490,11 @@ func cmdStruct(args []string) {
 				if has(nz, "NM") {
 					nmv = mapv(7)
 				}
-				var sv any = stv(a, n, pv, l, mv, nmv)
+				phv := any(nilv())
+				if has(nz, "PH") {
+					phv = ptrv(stv(lit(7)))
+				}
+				var sv any = stv(a, n, pv, l, mv, nmv, phv)
 				if p.SrcPtr {
 					sv = ptrv(sv)
 				}
@@ -816,7 +820,7 @@ func cmdStruct(args []string) {
 			}
 		case "update":
 			if o.Gen != "ok" || badc {
-				base["prog"], base["panic"], base["srcNil"], base["nonzero"], base["post"] = s.Prog, false, false, []string{}, []string{"other", "other", "other", "other", "other", "other", "other"}
+				base["prog"], base["panic"], base["srcNil"], base["nonzero"], base["post"] = s.Prog, false, false, []string{}, []string{"other", "other", "other", "other", "other", "other", "other", "other"}
 				obs.Write(base)
 				continue
 			}
@@ -834,9 +838,24 @@ func cmdStruct(args []string) {
 					nz = s.Vals[j]
 				}
 				rec["nonzero"] = nz
-				post := []string{"other", "other", "other", "other", "other", "other", "other"}
+				post := []string{"other", "other", "other", "other", "other", "other", "other", "other"}
 				if r["panic"] != true {
 					t := r["after"].([]any)[0].(map[string]any)["e"].(map[string]any)["fs"].([]any)
+					if ph, ok := t[7].(map[string]any); ok {
+						switch {
+						case ph["k"] == "nil":
+							if !has(nz, "PH") {
+								post[7] = "conv" // the nil source pointer was assigned
+							}
+						case ph["k"] == "p":
+							switch v := litOf(ph["e"].(map[string]any)["fs"].([]any)[0]); {
+							case v == 9:
+								post[7] = "keep"
+							case v == 7 && has(nz, "PH"):
+								post[7] = "conv"
+							}
+						}
+					}
 					for k, f := range []string{"M", "NM"} {
 						mf := t[5+k].(map[string]any)
 						switch {
